@@ -256,6 +256,28 @@ impl Index<RangeFull> for Line {
     }
 }
 
+#[cfg(avt_verif)]
+impl Line {
+    // verification hook: wrapped flag + run-length encoded cells
+    pub(crate) fn verif_state(&self, out: &mut String) {
+        let mut runs: Vec<(usize, Cell)> = Vec::new();
+
+        for cell in &self.cells {
+            match runs.last_mut() {
+                Some((n, c)) if c == cell => *n += 1,
+                _ => runs.push((1, *cell)),
+            }
+        }
+
+        out.push_str(&format!("{} {} ", self.wrapped as u8, runs.len()));
+
+        for (n, cell) in runs {
+            out.push_str(&format!("{} {} ", n, cell.char() as u32));
+            cell.pen().verif_state(out);
+        }
+    }
+}
+
 #[cfg(test)]
 mod tests {
     use super::{Cell, Chunks};
